@@ -436,8 +436,22 @@ elif opts.get("store") == "noop":
     dds.set_store("noop")
 elif opts.get("store") == "local_cache":
     dds.set_store("local", internal_dir=os.path.join(opts.get("store_dir", base), "_int"), data_dir=os.path.join(opts.get("store_dir", base), "_data"), cache_objects=3)
+elif opts.get("store") == "dbfs":
+    pass
 else:
     dds.set_store("local", internal_dir=os.path.join(opts.get("store_dir", base), "_int"), data_dir=os.path.join(opts.get("store_dir", base), "_data"))
+if opts.get("store") == "dbfs":
+    sys.path.insert(0, "/verif")
+    from replay.h_dbfs import FakeDbutils
+    dds.set_store("dbfs", internal_dir="dbfs:/int", data_dir="dbfs:/data", dbutils=FakeDbutils(), commit_type=opts.get("commit_type", "full"))
+if opts.get("reload"):
+    # a notebook cell run again: every function object of the module is replaced by a new one with the same source
+    import importlib
+    for _ in range(opts["reload"]):
+        importlib.reload(pipe)
+if opts.get("graph_warmup"):
+    dds.eval(pipe.root, dds_export_graph=os.path.join(opts.get("store_dir", base), "g.svg"), dds_extra_debug=True)
+    pipe.CALLS.clear()
 for i in range(opts.get("warmup", 0)):
     dds.eval(pipe.leaf_unit)
     dds.eval(pipe.leaf_plain)
@@ -651,7 +665,15 @@ def main():
                 ("extra_debug off", {"store": "memory", "extra_debug": False}, {}, None, d),
                 ("extra_debug on", {"store": "memory", "extra_debug": True}, {}, None, d),
                 ("after 2 earlier evaluations in the same process", {"store": "memory", "warmup": 2}, {}, None, d),
+                ("local store behind the object cache", {"store": "local_cache"}, {}, None, d),
+                ("DBFS store, full commits", {"store": "dbfs", "commit_type": "full"}, {}, None, d),
+                ("DBFS store, links only", {"store": "dbfs", "commit_type": "links_only"}, {}, None, d),
+                ("module reloaded twice before the evaluation (cell run again)", {"store": "memory", "reload": 2}, {}, None, d),
+                ("after an evaluation with graph export and extra_debug", {"store": "local", "graph_warmup": True}, {}, None, d),
             ]
+            ln = os.path.join(tmp, "through_symlink")
+            os.symlink(d, ln)
+            variants.append(("package reached through a symbolic link", {"store": "memory"}, {}, None, ln))
             d2 = os.path.join(tmp, "elsewhere", "deep", "copy")
             os.makedirs(os.path.dirname(d2))
             shutil.copytree(d, d2, ignore=shutil.ignore_patterns("_int", "_data", "__pycache__"))
@@ -659,7 +681,7 @@ def main():
             for (vname, opts, env, cwd, where) in variants:
                 o = dict(opts)
                 o.setdefault("store", "memory")
-                if o["store"] == "local":
+                if o["store"] in ("local", "local_cache"):
                     o["store_dir"] = os.path.join(tmp, "st_%d" % evals)
                 r = run(where, "dds", o, env, cwd)
                 evals += 1
@@ -694,7 +716,7 @@ def main():
     finally:
         shutil.rmtree(tmp, ignore_errors=True)
     print(json.dumps({
-        "scope": {"c01": "a __main__ script through 5 edits; the pipeline on the memory / noop / cache-wrapped local store through 2 edits; %d single edits of a 30-keep pipeline (each dependency kind), value vs plain execution and signature sensitivity" % len(EDITS), "c02": "%d single edits + restart + revert: re-execution only inside the dependency cone" % len(EDITS), "c03": "9 environment variants + pinned signatures of the corpus"}[mode],
+        "scope": {"c01": "a __main__ script through 5 edits; the pipeline on the memory / noop / cache-wrapped local store through 2 edits; %d single edits of a 30-keep pipeline (each dependency kind), value vs plain execution and signature sensitivity" % len(EDITS), "c02": "%d single edits + restart + revert: re-execution only inside the dependency cone" % len(EDITS), "c03": "15 environment variants (hash seeds, cwd, location, symlink, 5 store kinds, debug, graph export, reload, history) + pinned signatures of the corpus"}[mode],
         "evaluations": evals, "distinct_nontrivial": evals, "rule": "one case per edit (c01/c02) or per environment variant (c03), each in fresh interpreter processes",
         "samples": samples, "violations": violations,
         "known_hits": ["bounded:%s (%d cases, e.g. %s)" % (c, len(w), w[0][:170]) for c, w in sorted(known.items())],
